@@ -115,7 +115,8 @@ fn gen(rng: &mut Rng, idx: u64, _tier: Tier) -> Case {
                 // a squitter whose parity field is overlaid with an address (its own, or another aircraft's) as if
                 // it were an address/parity format - or with a small number
                 let n = f.len();
-                let ov = match rng.below(4) { 0 => modes::get_bits(&f, 9, 32) as u32, 1 => acs[rng.below(acs.len() as u64) as usize].icao, 2 => 0x80 << rng.below(17), _ => rng.range(128, 4000) as u32 };
+                let pi = ((f[n - 3] as u32) << 16) | ((f[n - 2] as u32) << 8) | f[n - 1] as u32;
+                let ov = match rng.below(7) { 0 => modes::get_bits(&f, 9, 32) as u32, 1 => acs[rng.below(acs.len() as u64) as usize].icao, 2 => 0x80 << rng.below(17), 3 => if pi != 0 { pi } else { 0xFFFFFF }, 4 => pi ^ 0xFFFFFF, 5 => pi ^ (modes::get_bits(&f, 9, 32) as u32), _ => rng.range(128, 4000) as u32 };
                 f[n - 3] ^= (ov >> 16) as u8; f[n - 2] ^= (ov >> 8) as u8; f[n - 1] ^= ov as u8;
                 "bitflip-overlay"
             } else { class };
@@ -123,6 +124,11 @@ fn gen(rng: &mut Rng, idx: u64, _tier: Tier) -> Case {
             lines.push((gen::gap_us(rng, d).min(3_000_000), gen::line_of(rng, &f, deco), format!("corrupt:{}", class)));
         }
         if i == n { break; }
+        if rng.chance(0.05) {
+            // receivers also emit things that are not frames at all
+            let k = *rng.pick(gen::JUNK_KINDS);
+            lines.push((0, gen::junk(rng, k), format!("junk:junk-{}", k)));
+        }
         let a = rng.below(acs.len() as u64) as usize;
         let k = *rng.pick(&kinds);
         let f = gen::frame(rng, &mut acs[a], k, false);
